@@ -31,6 +31,7 @@ def run_property(pid, tier, seed, only_bounded=None, write=True, quiet=False):
     violations, undecided, errors = [], [], []
     obligations, finite_obl, bounded_items = [], [], []
     functions = []
+    covers = []
     assumptions = list(spec.get('assumptions', []))
     trusted = list(spec.get('trusted_base', []))
 
@@ -44,6 +45,7 @@ def run_property(pid, tier, seed, only_bounded=None, write=True, quiet=False):
             assumptions += res.get('assumptions', [])
             errors += res.get('errors', [])
             undecided += res.get('outside_subset', [])
+            covers = res.get('covers', [])
         except Exception:
             errors.append('pyvc: ' + traceback.format_exc())
 
@@ -125,6 +127,7 @@ def run_property(pid, tier, seed, only_bounded=None, write=True, quiet=False):
         checker_cmd='./check %s --tier %s' % (pid, tier),
         trusted_base=trusted,
         functions_under_contract=functions,
+        vacuity_covers=covers,
         obligation_list=[dict(name=o['name'], kind=o.get('kind'), backend=o.get('backend'), status=o['status'],
                               time_s=round(o.get('time_s', 0.0), 4)) for o in all_obl],
         solver_time_s=round(sum(o.get('time_s', 0.0) for o in all_obl), 3),
